@@ -52,7 +52,8 @@ private:
 
     ConstGenericSparseMatrix m_mat;
     const Index m_n;
-    Eigen::ConjugateGradient<SparseMatrix> m_cg;
+    // The solver has to read the same triangle as perform_op()
+    Eigen::ConjugateGradient<SparseMatrix, Uplo> m_cg;
     mutable CompInfo m_info;
 
 public:
